@@ -35,6 +35,23 @@ pub fn sx126x<C: Sx126xVariant>(chip: &C126, variant: C, rx_boost: bool) -> (R12
     (Sx126x::new(Spi::new(chip.clone()), iv.clone(), cfg), iv)
 }
 
+/// Board options as a bit set: bit 0 rx_boost, bit 1 tx_boost (SX127x) / DC-DC regulator (SX126x), bit 2 TCXO.
+pub fn sx126x_board<C: Sx126xVariant>(chip: &C126, variant: C, board: u8) -> (R126<C>, Iv) {
+    let iv = Iv::new();
+    let cfg = sx126x::Config { chip: variant, tcxo_ctrl: if board & 4 != 0 { Some(sx126x::TcxoCtrlVoltage::Ctrl1V7) } else { None }, use_dcdc: board & 2 != 0, rx_boost: board & 1 != 0 };
+    (Sx126x::new(Spi::new(chip.clone()), iv.clone(), cfg), iv)
+}
+pub fn sx1276_board(chip: &C127, board: u8) -> (R1276, Iv) {
+    let iv = Iv::new();
+    let cfg = sx127x::Config { chip: Sx1276, tcxo_used: board & 4 != 0, tx_boost: board & 2 != 0, rx_boost: board & 1 != 0 };
+    (Sx127x::new(Spi::new(chip.clone()), iv.clone(), cfg), iv)
+}
+pub fn sx1272_board(chip: &C127, board: u8) -> (R1272, Iv) {
+    let iv = Iv::new();
+    let cfg = sx127x::Config { chip: Sx1272, tcxo_used: board & 4 != 0, tx_boost: board & 2 != 0, rx_boost: board & 1 != 0 };
+    (Sx127x::new(Spi::new(chip.clone()), iv.clone(), cfg), iv)
+}
+
 pub fn sx1276(chip: &C127, tx_boost: bool, rx_boost: bool) -> (R1276, Iv) {
     let iv = Iv::new();
     let cfg = sx127x::Config { chip: Sx1276, tcxo_used: false, tx_boost, rx_boost };
